@@ -237,7 +237,58 @@ class SMI(Machine):
         if meth == 'write_str' and isinstance(d0, Adt) and d0.name == 'Formatter':
             return self.sink_write(d0, args[1])
         if meth in ('write_all', 'write') and isinstance(d0, Sink):
-            raise Unsupported('direct io::Write::%s (short-write contract not modelled)' % meth)
+            buf = args[1]
+            buf = deref(buf)
+            if isinstance(buf, RString):
+                buf = buf.s
+            if isinstance(buf, bytes):
+                buf = buf.decode()
+            if isinstance(buf, list):
+                buf = bytes(buf).decode() if all(isinstance(b, int) for b in buf) else buf
+            r = self.sink_write(d0, buf if isinstance(buf, (str, SymVal)) else self.cstr(buf))
+            if meth == 'write_all' or r.variant == 1:
+                return r
+            # io::Write::write may accept only part of the buffer: in short-write mode the sink keeps one byte
+            n = self.smap(lambda t: len(t.encode()), buf)
+            if getattr(d0, 'short', False):
+                last = d0.rope.pop()
+                t = self.cstr(last)
+                if len(t) > 1:
+                    d0.rope.append(t[:1])
+                    self.events.append(('short_write', len(t)))
+                    return OK(1)
+                d0.rope.append(t)
+            return OK(n)
+        if meth == 'flush' and isinstance(d0, Sink):
+            return OK(())
+        if meth == 'as_bytes':
+            return as_str(a0)
+        if meth == 'kind' and isinstance(d0, Opaque) and d0.kind == 'io::Error':
+            kinds = [k for k in ('Other', 'BrokenPipe', 'WriteZero', 'Interrupted', 'PermissionDenied', 'StorageFull', 'TimedOut', 'UnexpectedEof') if k in ENUMS.get('ErrorKind', [])]
+            if not kinds:
+                raise Unsupported('io::ErrorKind variants unknown')
+            if not isinstance(d0.data, dict):
+                sel = z3.Int('io_error_kind_%d' % len([e for e in self.events if e[0] == 'err_kind']))
+                self.pc.append(z3.And(sel >= 0, sel < len(kinds)))
+                chosen = kinds[-1]
+                for i, k in enumerate(kinds[:-1]):
+                    if self.branch(sel == i):
+                        chosen = k
+                        break
+                d0.data = {'kind': chosen}
+                self.events.append(('err_kind', chosen))
+            return Adt('ErrorKind', ENUMS['ErrorKind'].index(d0.data['kind']), [])
+        if c in ('log::max_level', 'max_level'):
+            return Adt('LevelFilter', 0, [])       # no logger installed: logging is off
+        if c.startswith('log::__private_api::'):
+            return ()
+        if meth in ('le', 'lt', 'ge', 'gt') and isinstance(d0, Adt) and d0.name in ('Level', 'LevelFilter') and len(args) == 2:
+            o = deref(args[1])
+            return {'le': d0.variant <= o.variant, 'lt': d0.variant < o.variant, 'ge': d0.variant >= o.variant, 'gt': d0.variant > o.variant}[meth]
+        if c in ('std::iter::once', 'once', 'core::iter::once'):
+            return It(iter([a0]))
+        if c in ('std::iter::empty', 'empty', 'core::iter::empty'):
+            return It(iter([]))
         if meth == 'to_string':
             return RString(self.display(a0))
         if meth in ('as_display', 'as_dyn_error'):
@@ -433,6 +484,9 @@ class SMI(Machine):
                 if isinstance(a0, Ref) or meth == 'iter':
                     return It(Ref(d0, i) for i in range(len(d0)))
                 return It(iter(list(d0)))
+            if isinstance(d0, PyMap) and getattr(d0, 'is_set', False):
+                order = self.map_order(d0)
+                return It((Ref(d0.entries[i], 0) if (isinstance(a0, Ref) or meth == 'iter') else d0.entries[i][0]) for i in order)
             if isinstance(d0, PyMap):
                 order = self.map_order(d0)
                 ents = [d0.entries[i] for i in order]
@@ -494,15 +548,12 @@ class SMI(Machine):
                 i = args[1]
                 return SOME(Ref(d0, i)) if isinstance(i, int) and 0 <= i < len(d0) else NONE()
             if meth == 'extend':
-                o = deref(args[1])
-                if isinstance(o, It):
-                    while True:
-                        x = o.next()
-                        if x is None:
-                            break
-                        d0.append(x)
-                else:
-                    d0.extend(o)
+                o = self.as_iter(args[1])
+                while True:
+                    x = o.next()
+                    if x is None:
+                        break
+                    d0.append(x)
                 return ()
             if meth == 'insert':
                 d0.insert(args[1], args[2])
@@ -512,6 +563,10 @@ class SMI(Machine):
                 return ()
         if c in ('HashMap::new', 'HashMap::with_capacity'):
             return PyMap('hash')
+        if c in ('HashSet::new', 'HashSet::with_capacity', 'BTreeSet::new'):
+            m_ = PyMap('btree' if c.startswith('BTree') else 'hash')
+            m_.is_set = True
+            return m_
         if c in ('BTreeMap::new',):
             return PyMap('btree')
         if meth == 'from' and re.search(r'<(HashMap|BTreeMap)<', c0):
@@ -519,6 +574,14 @@ class SMI(Machine):
             for kv in d0:
                 self.map_insert(m, kv[0], kv[1])
             return m
+        if isinstance(d0, PyMap) and getattr(d0, 'is_set', False):
+            if meth == 'insert':
+                return self.map_insert(d0, args[1], ()).variant == 0
+            if meth == 'contains':
+                return self.map_find(d0, args[1]) is not None
+            if meth in ('iter', 'into_iter'):
+                order = self.map_order(d0)
+                return It((Ref(d0.entries[i], 0) if (isinstance(a0, Ref) or meth == 'iter') else d0.entries[i][0]) for i in order)
         if isinstance(d0, PyMap):
             if meth == 'insert':
                 return self.map_insert(d0, args[1], args[2])
@@ -650,6 +713,22 @@ class SMI(Machine):
             if pres is True or self.truth(pres):
                 yield XNode(n.doc, i)
 
+    def as_iter(self, v, by_ref=False):
+        """IntoIterator of a runtime value"""
+        o = deref(v)
+        if isinstance(o, It):
+            return o
+        if isinstance(o, list):
+            return It((Ref(o, i) for i in range(len(o)))) if (by_ref or isinstance(v, Ref)) else It(iter(list(o)))
+        if isinstance(o, PyMap):
+            order = self.map_order(o)
+            if getattr(o, 'is_set', False):
+                return It((Ref(o.entries[i], 0) if (by_ref or isinstance(v, Ref)) else o.entries[i][0]) for i in order)
+            return It(([Ref(o.entries[i], 0), Ref(o.entries[i], 1)] if (by_ref or isinstance(v, Ref)) else [o.entries[i][0], o.entries[i][1]]) for i in order)
+        if isinstance(o, Adt) and o.name == 'Option':
+            return It(iter([o.fields[0]] if o.variant == 1 else []))
+        raise Unsupported('into_iter of %r' % (o,))
+
     # ------------------------------------------------------------------ iterator adaptors
     def model_iter(self, it, meth, args, c0):
         if meth == 'next':
@@ -746,8 +825,7 @@ class SMI(Machine):
                         if inner.variant == 1:
                             yield inner.fields[0]
                         continue
-                    if isinstance(inner, list):
-                        inner = It(iter(inner))
+                    inner = self.as_iter(inner)
                     while True:
                         y = inner.next()
                         if y is None:
@@ -765,9 +843,7 @@ class SMI(Machine):
                     i += 1
             return It(g())
         if meth == 'chain':
-            o = deref(args[1])
-            if isinstance(o, list):
-                o = It(iter(o))
+            o = self.as_iter(args[1])
 
             def g():
                 while True:
@@ -820,6 +896,115 @@ class SMI(Machine):
                 if x is None:
                     return ()
                 self.call_closure(args[1], [x])
+        if meth == 'partition':
+            yes, no = [], []
+            while True:
+                x = it.next()
+                if x is None:
+                    return [yes, no]
+                (yes if self.truth(self.call_closure(args[1], [Ref([x], 0)])) else no).append(x)
+        if meth in ('try_for_each', 'try_fold'):
+            acc = args[1] if meth == 'try_fold' else ()
+            f = args[2] if meth == 'try_fold' else args[1]
+            kind = None
+            while True:
+                x = it.next()
+                if x is None:
+                    break
+                r = self.call_closure(f, [acc, x] if meth == 'try_fold' else [x])
+                r = deref(r)
+                if not isinstance(r, Adt):
+                    raise Unsupported('try_for_each result %r' % (r,))
+                kind = r.name
+                if r.name == 'Result':
+                    if r.variant == 1:
+                        return r
+                    acc = r.fields[0]
+                elif r.name == 'Option':
+                    if r.variant == 0:
+                        return r
+                    acc = r.fields[0]
+                elif r.name == 'ControlFlow':
+                    if r.variant == 1:
+                        return r
+                    acc = r.fields[0]
+            tail = c0.split(meth, 1)[1]
+            if kind == 'Option' or (kind is None and 'Option<' in tail and 'Result<' not in tail):
+                return SOME(acc)
+            if kind == 'ControlFlow':
+                return Adt('ControlFlow', 0, [acc])
+            return OK(acc)
+        if meth in ('take_while', 'skip_while'):
+            f = args[1]
+            if meth == 'take_while':
+                def g():
+                    while True:
+                        x = it.next()
+                        if x is None or not self.truth(self.call_closure(f, [Ref([x], 0)])):
+                            return
+                        yield x
+            else:
+                def g():
+                    skipping = True
+                    while True:
+                        x = it.next()
+                        if x is None:
+                            return
+                        if skipping and self.truth(self.call_closure(f, [Ref([x], 0)])):
+                            continue
+                        skipping = False
+                        yield x
+            return It(g())
+        if meth == 'zip':
+            o = self.as_iter(args[1])
+
+            def g():
+                while True:
+                    x = it.next()
+                    y = o.next()
+                    if x is None or y is None:
+                        return
+                    yield [x, y]
+            return It(g())
+        if meth == 'nth':
+            x = None
+            for _ in range(args[1] + 1):
+                x = it.next()
+                if x is None:
+                    return NONE()
+            return SOME(x)
+        if meth == 'inspect':
+            f = args[1]
+
+            def g():
+                while True:
+                    x = it.next()
+                    if x is None:
+                        return
+                    self.call_closure(f, [Ref([x], 0)])
+                    yield x
+            return It(g())
+        if meth in ('map_while',):
+            f = args[1]
+
+            def g():
+                while True:
+                    x = it.next()
+                    if x is None:
+                        return
+                    r = self.call_closure(f, [x])
+                    if r.variant == 0:
+                        return
+                    yield r.fields[0]
+            return It(g())
+        if meth == 'unzip':
+            a, b = [], []
+            while True:
+                x = it.next()
+                if x is None:
+                    return [a, b]
+                a.append(x[0])
+                b.append(x[1])
         if meth == 'fold':
             acc = args[1]
             while True:
@@ -837,6 +1022,7 @@ class SMI(Machine):
             tail = c0.split('collect', 1)[1]
             want_result = tail.startswith('::<Result<') or tail.startswith('::<std::result::Result<')
             want_map = 'HashMap' in tail or 'BTreeMap' in tail
+            want_set = ('HashSet' in tail or 'BTreeSet' in tail) and not want_map
             tgt = tail[3:-1] if tail.startswith('::<') else ''
             want_string = tgt in ('String', 'std::string::String')
             while True:
@@ -854,6 +1040,11 @@ class SMI(Machine):
                 res = PyMap('btree' if 'BTreeMap' in tail else 'hash')
                 for kv in items:
                     self.map_insert(res, kv[0], kv[1])
+            elif want_set:
+                res = PyMap('btree' if 'BTreeSet' in tail else 'hash')
+                res.is_set = True
+                for k in items:
+                    self.map_insert(res, k, ())
             else:
                 res = items
             return OK(res) if want_result else res
